@@ -55,9 +55,11 @@ Definition upd (s : lts) (pm : N) (ex : list ephase) (lp : list lphase) (w : N) 
 (* None = the event is not enabled in this state (a real execution cannot take it) *)
 Definition lstep (s : lts) (e : lev) : option lts :=
   match e with
-  | NewShard =>   (* only before Shutdown is called: later requests are outside the property's domain *)
-      if shutdown_called s then None
-      else Some (upd s (permits s) (exports s) (loops s ++ [LRunning]) (wg s + 1) false (shutdown_returned s))
+  | NewShard =>   (* a Consume call that was already in flight when Shutdown was called may still create its shard while
+                     Shutdown waits (goroutines.Add before the Wait returns); after Shutdown has returned it is outside the
+                     property's domain *)
+      if shutdown_returned s then None
+      else Some (upd s (permits s) (exports s) (loops s ++ [LRunning]) (wg s + 1) (shutdown_called s) false)
   | Decide j =>
       match nth_error (loops s) j with
       | Some LRunning => Some (upd s (permits s) (exports s) (set_nth j LBlocked (loops s)) (wg s) (shutdown_called s) (shutdown_returned s))
@@ -145,10 +147,10 @@ Qed.
 Lemma lstep_inv s e s1 : LInv s -> lstep s e = Some s1 -> LInv s1 /\ limit s1 = limit s.
 Proof.
   intros (Hp & Hw & Hs & Hd) H. unfold LInv, in_flight, alive in *. destruct e; cbn [lstep] in H.
-  - destruct (shutdown_called s) eqn:Esc; [discriminate|]. injection H as <-.
+  - destruct (shutdown_returned s) eqn:Esr; [discriminate|]. injection H as <-.
     cbn [upd limit permits exports loops wg shutdown_called shutdown_returned].
     rewrite (count_snoc l_live). cbn [l_live].
-    split; [|reflexivity]. split; [exact Hp|]. split; [lia|]. split; [intros Hr; destruct (Hs Hr); congruence|].
+    split; [|reflexivity]. split; [exact Hp|]. split; [lia|]. split; [intros Hr; discriminate|].
     intros Hc. apply Forall_app. split; [auto|]. constructor; [discriminate|constructor].
   - destruct (nth_error (loops s) j) as [[| |]|] eqn:En; try discriminate. injection H as <-.
     cbn [upd limit permits exports loops wg shutdown_called shutdown_returned].
